@@ -43,6 +43,11 @@ func gid() int64 {
 }
 
 func finish(outcome string) {
+	if os.Getenv("VERIF_REPLAY_TRACE") != "" && (outcome == "hang" || len(outcome) > 6 && outcome[:6] == "replay") {
+		buf := make([]byte, 1<<20)
+		n := runtime.Stack(buf, true)
+		os.Stderr.Write(buf[:n])
+	}
 	fmt.Printf("\nVERIF-REPLAY-OUTCOME: %s\n", outcome)
 	os.Stdout.Sync()
 	os.Exit(3) // non-zero: "go test" refuses os.Exit(0) inside a test; vcheck only reads the outcome line
@@ -100,10 +105,17 @@ func ensureBaton(t *thread) {
 
 // point is a scheduling point of kind "go", "yield", "dispatch" or "exit" reached by thread t.
 // It returns false if the recorded schedule has nothing more to say.
+func trace(format string, args ...any) {
+	if os.Getenv("VERIF_REPLAY_TRACE") != "" {
+		fmt.Fprintf(os.Stderr, "verifrt: "+format+"\n", args...)
+	}
+}
+
 func point(t *thread, kind string, onBehalf bool) bool {
 	if !onBehalf {
 		ensureBaton(t)
 	}
+	trace("point thread=%d kind=%s onBehalf=%v pos=%d", t.id, kind, onBehalf, pos)
 	atomic.AddInt64(&ts.activity, 1)
 	ev, ok := peekSched()
 	if !ok {
@@ -286,5 +298,40 @@ func outcomeOf(p any) string {
 		return "panic:" + p.Error()
 	default:
 		return fmt.Sprintf("panic:%v", p)
+	}
+}
+
+// Quiesce lets the other harness threads run until each of them is blocked or
+// has finished (the engine explores the orders in which they may run), then
+// continues. Natively it performs the hand-overs the engine recorded.
+func Quiesce() {
+	ts.mu.Lock()
+	n := len(ts.threads)
+	ts.mu.Unlock()
+	if n <= 1 {
+		if ev, ok := peekSched(); ok && ev.Name == "quiesced" {
+			popEvent()
+		}
+		return
+	}
+	me := self()
+	if me == nil {
+		return
+	}
+	ensureBaton(me)
+	for {
+		ev, ok := peekSched()
+		if !ok || ev.From != me.id {
+			return
+		}
+		switch ev.Name {
+		case "quiesced":
+			popEvent()
+			return
+		case "dispatch":
+			point(me, "dispatch", false)
+		default:
+			return
+		}
 	}
 }
